@@ -3,33 +3,34 @@
 # Confirms a sub-agent's seeded change in its scratch worktree (moved to /repo's current HEAD):
 # demo passes without, fails with; repository suite passes with. Then stores it under /verif/seeded/<Cxx>-<n>/.
 pid=$1; n=$2
-wt=/tmp/seed/$pid/wt; out=/tmp/seed/$pid/out
+base=${SEEDDIR:-/tmp/seed}; k=$((n + ${SEEDOFFSET:-0}))
+wt=$base/$pid/wt; out=$base/$pid/out
 head=$(git -C /repo rev-parse HEAD)
 cd $wt || exit 2
 git checkout -q -- . ; git clean -fdq; git checkout -q --detach $head || exit 2
 export PYTHONPATH=$wt PYTHONDONTWRITEBYTECODE=1
-timeout 600 /venv/bin/python $out/demo$n.py > /tmp/seed/$pid/demo${n}_without.log 2>&1; rc_without=$?
+timeout 600 /venv/bin/python $out/demo$n.py > $base/$pid/demo${n}_without.log 2>&1; rc_without=$?
 git apply $out/patch$n.diff 2>/dev/null || git apply --3way $out/patch$n.diff || { echo "$pid-$n: PATCH DOES NOT APPLY"; git checkout -q -- .; exit 3; }
-git diff > /tmp/seed/$pid/patch$n.rebased.diff
-timeout 600 /venv/bin/python $out/demo$n.py > /tmp/seed/$pid/demo${n}_with.log 2>&1; rc_with=$?
-timeout 1500 /venv/bin/python -m pytest -q -x -p no:cacheprovider --timeout=900 -n 6 --deselect tests/test_mamba.py tests > /tmp/seed/$pid/suite$n.log 2>&1; rc_suite=$?
+git diff > $base/$pid/patch$n.rebased.diff
+timeout 600 /venv/bin/python $out/demo$n.py > $base/$pid/demo${n}_with.log 2>&1; rc_with=$?
+timeout 1500 /venv/bin/python -m pytest -q -x -p no:cacheprovider --timeout=900 -n 6 --deselect tests/test_mamba.py tests > $base/$pid/suite$n.log 2>&1; rc_suite=$?
 git checkout -q -- . ; git clean -fdq
-summary=$(tail -1 /tmp/seed/$pid/suite$n.log)
+summary=$(tail -1 $base/$pid/suite$n.log)
 echo "$pid-$n: demo_without=$rc_without demo_with=$rc_with suite=$rc_suite ($summary)"
 if [ $rc_without -eq 0 ] && [ $rc_with -ne 0 ] && [ $rc_suite -eq 0 ]; then
-  d=/verif/seeded/$pid-$n; mkdir -p $d
-  cp /tmp/seed/$pid/patch$n.rebased.diff $d/patch.diff; cp $out/demo$n.py $d/demo.py
-  /venv/bin/python - "$pid" "$n" "$head" "$summary" <<'PY'
+  d=/verif/seeded/$pid-$k; mkdir -p $d
+  cp $base/$pid/patch$n.rebased.diff $d/patch.diff; cp $out/demo$n.py $d/demo.py
+  /venv/bin/python - "$pid" "$n" "$head" "$summary" "$base" "$k" <<'PY'
 import json, sys
-pid, n, head, summary = sys.argv[1:5]
-try: meta = json.load(open(f'/tmp/seed/{pid}/out/meta{n}.json'))
+pid, n, head, summary, base, k = sys.argv[1:7]
+try: meta = json.load(open(f'{base}/{pid}/out/meta{n}.json'))
 except Exception: meta = {}
 meta.update(property=pid, confirmed_at_repo_head=head,
             confirmed=dict(demo_without_change='exit 0', demo_with_change='non-zero exit', repository_suite_with_change=summary,
-                           how='tools/confirm_seed.sh in the scratch worktree /tmp/seed/%s/wt (removed afterwards)' % pid))
-json.dump(meta, open(f'/verif/seeded/{pid}-{n}/meta.json', 'w'), indent=1)
+                           how='tools/confirm_seed.sh in the scratch worktree %s/%s/wt (removed afterwards)' % (base, pid)))
+json.dump(meta, open(f'/verif/seeded/{pid}-{k}/meta.json', 'w'), indent=1)
 PY
-  echo "$pid-$n: CONFIRMED and stored"
+  echo "$pid-$n: CONFIRMED and stored as $pid-$k"
 else
   echo "$pid-$n: NOT CONFIRMED"
 fi
